@@ -115,6 +115,9 @@ func (s *Sim) NewNode(o NodeOpts) (*Node, error) {
 	cfg.LazyMempoolCheckFrequencyS = 0
 	cfg.RunVDF = false
 	cfg.Headless = true
+	// DefaultConfig draws a random compaction interval (500-600); keep runs a function of the seed and avoid the store's
+	// background compaction goroutine outliving a closed node (see h/chainsim)
+	cfg.StoreConfig.LSSCompactionInterval = 0
 	dir, err := os.MkdirTemp("", "nodesim-")
 	if err != nil {
 		return nil, err
